@@ -435,7 +435,7 @@ def degenerate_cases(tier, rng):
     add("path16", path(16))
     add("ring_alt12", ring_alt(12))
     add("12-isolated", _mk(12, []))
-    add("star11", star(11) if tier != "quick" else star(7))
+    add("star6-ids-x17", GG.relabel(star(6), {i: 17 * i for i in range(1, 8)}))      # 720 automorphisms, two/three-digit ids
     add("10-components", disjoint(*[path(2) for _ in range(10)]))
     add("two-decalins", disjoint(mirror(GG.cycle(5)), mirror(GG.cycle(5))))          # 20 nodes, 2 equal components
     # >= 100 atoms: beyond the enumerator budget of the model, oracle only
